@@ -9,3 +9,5 @@ import PyYetiVerif.Props.C05
 #print axioms PyYetiVerif.C05.negate
 #print axioms PyYetiVerif.C05.shift
 #print axioms PyYetiVerif.C05.scale
+#print axioms PyYetiVerif.C05.largest_range_counted
+#print axioms PyYetiVerif.C05.largest_range_needs_reversals
